@@ -157,7 +157,7 @@ static int lst_driver_main(void)
             int bad = !(WIFEXITED(st) && WEXITSTATUS(st) == 0);
             if (bad) {
                 abnormal++;
-                printf("F|{\"listener\":\"%s\",\"mode\":\"%s\",\"template\":\"%s\",\"index\":%llu,", lst_name(), lst_mode_name(mode), seq.tmpl, (unsigned long long)idx);
+                printf("F|{\"listener\":\"%s\",\"mode\":\"%s\",\"mode_index\":%d,\"template\":\"%s\",\"index\":%llu,", lst_name(), lst_mode_name(mode), mode, seq.tmpl, (unsigned long long)idx);
                 if (WIFSIGNALED(st)) printf("\"status\":\"signal\",\"signal\":%d,", WTERMSIG(st));
                 else printf("\"status\":\"exit\",\"code\":%d,", WEXITSTATUS(st));
                 printf("\"datagrams\":[");
